@@ -58,6 +58,10 @@ for key, mod, cls in PARSERS:
         "sr": sorted([int(s), str(t), str(r)] for s, t, r in lr.sr_conflicts),
         "rr": sorted([int(s), str(a), str(b)] for s, a, b in lr.rr_conflicts),
         "states": len(lr.lr_action),
+        "nonterminals": sorted(g.Nonterminals),
+        "lr_action": [[int(st), sorted([str(t), int(a)] for t, a in row.items())] for st, row in sorted(lr.lr_action.items())],
+        "lr_goto": [[int(st), sorted([str(n), int(t)] for n, t in row.items())] for st, row in sorted(lr.lr_goto.items())],
+        "defaulted": sorted([int(st), int(a)] for st, a in lr.defaulted_states.items()),
     }
 from montepy.input_parser import tokens
 lex = {}
@@ -207,6 +211,49 @@ def grammar_v(d):
     return "\n".join(out) + "\n"
 
 
+LR_PARSERS = ["cell", "surface", "data", "classifier", "param_only", "material", "thermal", "tally", "tally_seg"]
+
+
+def lrtables_v(d):
+    """Gen/LRTables.v: the LALR(1) action/goto tables SLY built (Parser._lrtable.lr_action / lr_goto), i.e. the
+    automaton *after* SLY's conflict resolution.  Symbols are indices: terminal i = i-th entry of <k>_lr_terminals
+    ("$end" first), nonterminal j = j-th entry of <k>_lr_nonterminals.  Row s of <k>_lr_action is the list of
+    (terminal index, action) of state s with SLY's encoding: > 0 shift to that state, < 0 reduce by production -a
+    (production p is the p-th entry, 1-based, of Grammar.<k>_productions), 0 accept.  Row s of <k>_lr_goto:
+    (nonterminal index, target state)."""
+    out = ["(* GENERATED by harness/translate_grammar.py from the MontePy source tree — do not edit, not committed. *)\n"
+           "From Coq Require Import List String ZArith.\nImport ListNotations.\nOpen Scope string_scope.\nOpen Scope Z_scope.\n"]
+    for key in LR_PARSERS:
+        g = d["parsers"][key]
+        terms = ["$end"] + [t for t in g["terminals"] if t != "$end"]
+        extra = sorted({t for _, row in g["lr_action"] for t, _ in row} - set(terms))
+        if extra:
+            raise RuntimeError("translate_grammar: action table of %s uses unknown terminals %r" % (key, extra))
+        nts = list(g["nonterminals"])
+        tix = {t: i for i, t in enumerate(terms)}
+        nix = {n: i for i, n in enumerate(nts)}
+        states = [st for st, _ in g["lr_action"]]
+        if states != list(range(len(states))):
+            raise RuntimeError("translate_grammar: states of %s are not 0..n-1" % key)
+        gotos = dict((st, row) for st, row in g["lr_goto"])
+        out.append("(* %s : %d states *)" % (g["class"], len(states)))
+        out.append("Definition %s_lr_terminals : list string := %s." % (key, clist([cs(t) for t in terms])))
+        out.append("Definition %s_lr_nonterminals : list string := %s." % (key, clist([cs(t) for t in nts])))
+        rows = []
+        for st, row in g["lr_action"]:
+            rows.append("[" + "; ".join("(%d, %s)" % (tix[t], ("(%d)" % a) if a < 0 else str(a)) for t, a in row) + "]")
+        out.append("Definition %s_lr_action : list (list (Z * Z)) := %s." % (key, clist(rows, 1)))
+        rows = []
+        for st in states:
+            row = gotos.get(st, [])
+            rows.append("[" + "; ".join("(%d, %d)" % (nix[n], t) for n, t in row) + "]")
+        out.append("Definition %s_lr_goto : list (list (Z * Z)) := %s." % (key, clist(rows, 1)))
+        dflt = dict((st, a) for st, a in g["defaulted"])
+        out.append("Definition %s_lr_defaulted : list (Z * Z) := %s.\n" % (
+            key, clist(["(%d, (%d))" % (st, a) for st, a in sorted(dflt.items())])))
+    return "\n".join(out) + "\n"
+
+
 def tables_v(d, mode, ppm):
     out = [HEADER % "translate_grammar.py"]
     out.append("Definition keywords : list string := %s." % clist(cs(x) for x in d["keywords"]))
@@ -257,7 +304,8 @@ def regenerate():
     _LAST.clear()
     _LAST.update(d=d, mode=mode, ppm=ppm)
     written = []
-    for name, text in (("Grammar.v", grammar_v(d)), ("Tables.v", tables_v(d, mode, ppm))):
+    for name, text in (("Grammar.v", grammar_v(d)), ("Tables.v", tables_v(d, mode, ppm)),
+                       ("LRTables.v", lrtables_v(d))):
         p = os.path.join(vlib.COQ, "Gen", name)
         if vlib.write_if_changed(p, text):
             written.append(p)
